@@ -20,8 +20,8 @@ impl Property for C01 {
     }
     fn cases(&self, tier: Tier) -> u32 {
         match tier {
-            Tier::Quick => 1200,
-            Tier::Thorough => 16000,
+            Tier::Quick => 40_000,
+            Tier::Thorough => 400_000,
         }
     }
     fn rule(&self) -> String {
